@@ -401,32 +401,54 @@ class Res(object):
     return [(tuple(facts), e)]
 
   # ------------------------------------------------------------------ guards
+  def facts_of(self, test, pol, node):
+    """atoms(test, pol) plus what they say once the locals they mention are resolved at the test:
+    `ok = isinstance(v, str)` ... `if not ok:` establishes (isinstance(v, str), False)."""
+    out = list(atoms(test, pol))
+    for (a, p) in list(out):
+      if not any(isinstance(x, ast.Name) for x in ast.walk(a)):
+        continue
+      ea = self.expand(a, node.id)
+      if text(ea) != text(a):
+        for f in atoms(ea, p):
+          out.append(f)
+    return out
+
   def _edges(self, atom, want):
     cfg = self.cfg
     edges, names = set(), set()
+    def note(a):
+      # locals the fact depends on (comprehension variables inside the test are its own)
+      own = set()
+      for x in ast.walk(a):
+        if isinstance(x, ast.comprehension):
+          own |= assigned_names(x.target)
+        elif isinstance(x, ast.Lambda):
+          own |= set(all_params(x))
+      names.update(x.id for x in ast.walk(a) if isinstance(x, ast.Name) and x.id not in own)
     for n in cfg.nodes:
       if n.kind == "if" and n.id in cfg.if_true:
         t_succ = cfg.if_true[n.id]
         exc = cfg.if_exc.get(n.id, set())
         f_succ = set(cfg.succ[n.id]) - t_succ - exc
         for pol, succ in ((True, t_succ), (False, f_succ)):
-          for (a, p) in atoms(n.stmt.test, pol):
+          for (a, p) in self.facts_of(n.stmt.test, pol, n):
             if p == want and atom(a, n):
               edges |= {(n.id, s) for s in succ}
-              names |= {x.id for x in ast.walk(a) if isinstance(x, ast.Name)}
+              note(a)
       elif n.kind == "assert":
-        for (a, p) in atoms(n.stmt.test, True):
+        for (a, p) in self.facts_of(n.stmt.test, True, n):
           if p == want and atom(a, n):
             edges |= {(n.id, s) for s in cfg.succ[n.id]
                       if s != cfg.raise_exit.id and cfg.nodes[s].kind != "handler"}
-            names |= {x.id for x in ast.walk(a) if isinstance(x, ast.Name)}
+            note(a)
       elif n.kind == "while":
         body = [s for s in cfg.succ[n.id] if cfg.nodes[s].stmt is not None and
                 cfg.nodes[s].stmt in getattr(n.stmt, "body", [])]
-        for (a, p) in atoms(n.stmt.test, True):
+        for (a, p) in self.facts_of(n.stmt.test, True, n):
           if p == want and atom(a, n):
             edges |= {(n.id, s) for s in body}
-            names |= {x.id for x in ast.walk(a) if isinstance(x, ast.Name)}
+            note(a)
     return edges, names
 
   def guarded(self, nid, atom, want=True, starts=None, removed=()):
@@ -537,15 +559,19 @@ class Res(object):
         if sub is None:
           return None
         out += sub
-      # in-place growth between the definitions and the use
-      for m in sorted(self.du.muts.get(e.id, ())):
+      # in-place growth between the definitions and the use (through any alias of the list)
+      grp = alias_group(self, e.id)
+      for m in sorted({x for nm in grp for x in self.du.muts.get(nm, ())}):
         mn = self.cfg.nodes[m]
         if nid is not None and not (m in self.cfg.reach({nid}, forward=False) or m == nid):
           continue
-        got = self._growth(mn, e.id)
-        if got is None:
-          return None
-        out += got
+        for nm in grp:
+          if m not in self.du.muts.get(nm, ()):
+            continue
+          got = self._growth(mn, nm)
+          if got is None:
+            return None
+          out += got
       return out
     return None
 
@@ -739,13 +765,197 @@ def res_of(world, fn):
 def scopes(world, fn):
   """Res of fn and of every def nested in it (recursively), outermost first."""
   out = [res_of(world, fn)]
-  for s in ast.walk(fn.node):
-    if isinstance(s, (ast.FunctionDef, ast.AsyncFunctionDef)) and s is not fn.node:
-      for q, fi in world.repo.funcs.items():
-        if fi.node is s:
-          out.append(res_of(world, world.fn_of(fi)))
-          break
-  return out
+  cache = getattr(fn, "_nested_F", None)
+  if cache is None:
+    cache = fn._nested_F = []
+    from ..fn import Fn
+    for s in ast.walk(fn.node):
+      if isinstance(s, (ast.FunctionDef, ast.AsyncFunctionDef)) and s is not fn.node:
+        found = None
+        for q, fi in world.repo.funcs.items():
+          if fi.node is s:
+            found = world.fn_of(fi)
+            break
+        if found is None:
+          # a copy of the function (helpers inlined): nested defs are not in the index
+          found = Fn(world, _PseudoFI(s, fn.fi))
+        cache.append(found)
+  return out + [res_of(world, f) for f in cache]
+
+
+# Functions the rules of this group look up *by name* at their call sites; the inliner leaves
+# calls of these alone.
+KEEP_F = frozenset((
+  "_rename_cell_choice", "rename_choices", "BulkUpdateRecord", "do_convert", "convert",
+  "has_user_input", "encode_args", "decode_args", "encode_object", "decode_object", "safe_repr",
+  "_get_encodable_row_ids", "get_action_repr", "encode_objects", "decode_objects",
+  "convert_recursive_in_action", "apply_doc_actions", "apply_doc_action", "_do_doc_action",
+  "_do_extra_doc_action", "doAddColumn", "next_row_id", "convert_action_values",
+  "update_new_rows_map", "_make_sorted_work_items", "_update_loop", "_changes_to_actions",
+  "_guess_basic_types", "get_table_data", "convert_and_add", "get_grist_column",
+  "generic_visit", "visit", "create_migrations", "noop_migration", "safe_parse",
+))
+
+
+def ifn(world, qualname, keep=()):
+  """Fn of `qualname` over a copy of its body in which small helpers it calls (private methods of
+  the same class, functions of the same module -- "a few statements extracted into a helper") are
+  dissolved back in, so the rules see one function whatever way the code is cut into helpers.
+  The functions the rules anchor on (KEEP_F, `keep`) and all visit_* methods are never dissolved.
+  Falls back to the plain function when the inliner is unavailable."""
+  key = frozenset(keep)
+  cache = world.__dict__.setdefault("_inliners_F", {})
+  inl = cache.get(key)
+  if inl is None:
+    try:
+      from ._h_A import Inliner
+    except Exception:
+      return world.fn(qualname)
+    names = set(KEEP_F) | set(keep)
+    names |= {q.rsplit(".", 1)[-1] for q in world.repo.funcs
+              if q.rsplit(".", 1)[-1].startswith("visit_")}
+
+    class _Inl(Inliner):
+      """Plain-name calls resolve to functions of the caller's module unless the caller binds
+      that name itself (parameter, assignment, nested def, import inside the function)."""
+      _bound = {}
+
+      def _callee(self, fi, call, caller_names):
+        f = call.func
+        if isinstance(f, ast.Name):
+          b = self._bound.get(fi.qualname)
+          if b is None:
+            b = set(all_params(fi.node))
+            for x in ast.walk(fi.node):
+              if isinstance(x, ast.Name) and isinstance(x.ctx, (ast.Store, ast.Del)):
+                b.add(x.id)
+              elif isinstance(x, (ast.FunctionDef, ast.AsyncFunctionDef, ast.ClassDef)) and \
+                  x is not fi.node:
+                b.add(x.name)
+              elif isinstance(x, (ast.Import, ast.ImportFrom)):
+                b |= {(a.asname or a.name).split(".")[0] for a in x.names}
+            self._bound[fi.qualname] = b
+          if f.id in b:
+            return None
+          c = fi.module.functions.get(f.id)
+          return (c, False) if c is not None else None
+        return Inliner._callee(self, fi, call, caller_names)
+
+      def _expr_helper(self, fi, call, names, stack):
+        """As the base class, but names the helper's expression binds itself (comprehension /
+        lambda variables) are renamed apart instead of giving up when they clash."""
+        from ._h_A import bind_call, _Subst, _strip_doc
+        r = self._callee(fi, call, names)
+        if r is None:
+          return None
+        callee, bound = r
+        if not self._inlinable(callee, stack):
+          return None
+        body = _strip_doc(callee.node.body)
+        if len(body) != 1 or not isinstance(body[0], ast.Return) or body[0].value is None:
+          return None
+        args = bind_call(call, callee, bound=bound)
+        if args is None:
+          return None
+        e = copy.deepcopy(body[0].value)
+        inner = set()
+        for x in ast.walk(e):
+          if isinstance(x, ast.Name) and isinstance(x.ctx, ast.Store):
+            inner.add(x.id)
+          if isinstance(x, ast.Lambda):
+            inner |= set(all_params(x))
+        if inner & set(args):
+          return None
+        clash = inner & set(names)
+        if clash:
+          self._n += 1
+          ren = {nm: "%s__e%d" % (nm, self._n) for nm in clash}
+          e = _Subst(ren, {}).visit(e)
+          names |= set(ren.values())
+        return _Subst({}, dict(args)).visit(e)
+
+      def _block(self, fi, stmts, names, stack, depth):
+        """Additionally: a multi-statement helper called in the middle of an expression whose
+        earlier operands are side-effect free is hoisted into a temporary first
+        (`return ['O', h(v)]` -> `t = h(v); return ['O', t]`), then dissolved as usual."""
+        if depth > 0:
+          pre = []
+          for st in stmts:
+            if isinstance(st, (ast.Return, ast.Assign, ast.Expr)) and st.value is not None and \
+                not isinstance(st.value, ast.Call):
+              c = self._hoist_candidate(fi, st.value, names, stack)
+              if c is not None:
+                self._n += 1
+                tmp = "__hv%d" % self._n
+                names.add(tmp)
+                asg = ast.copy_location(ast.Assign(
+                  targets=[ast.Name(id=tmp, ctx=ast.Store())], value=c), st)
+                ast.fix_missing_locations(asg)
+                _replace_node(st, c, ast.copy_location(ast.Name(id=tmp, ctx=ast.Load()), c))
+                pre.append(asg)
+            pre.append(st)
+          stmts = pre
+        return Inliner._block(self, fi, stmts, names, stack, depth)
+
+      def _hoist_candidate(self, fi, root, names, stack):
+        from ._h_A import _strip_doc
+        def simple(e):
+          if isinstance(e, (ast.Constant, ast.Name)):
+            return True
+          if isinstance(e, ast.Attribute):
+            return simple(e.value)
+          if isinstance(e, (ast.List, ast.Tuple, ast.Set)):
+            return all(simple(x) for x in e.elts)
+          return False
+        def ordered(e):
+          if isinstance(e, (ast.List, ast.Tuple, ast.Set)):
+            return list(e.elts)
+          if isinstance(e, ast.Dict):
+            out = []
+            for k, v in zip(e.keys, e.values):
+              out += [k, v] if k is not None else [v]
+            return out
+          if isinstance(e, ast.BinOp):
+            return [e.left, e.right]
+          if isinstance(e, ast.Call):
+            return [e.func] + list(e.args) + [k.value for k in e.keywords]
+          if isinstance(e, ast.Starred):
+            return [e.value]
+          if isinstance(e, ast.Subscript):
+            return [e.value, e.slice]
+          if isinstance(e, ast.Attribute):
+            return [e.value]
+          return None
+        def want(c):
+          if not isinstance(c, ast.Call):
+            return False
+          r = self._callee(fi, c, names)
+          if r is None or not self._inlinable(r[0], stack):
+            return False
+          body = _strip_doc(r[0].node.body)
+          single = len(body) == 1 and isinstance(body[0], ast.Return)
+          return not single and all(simple(a) for a in c.args) and \
+              all(simple(k.value) for k in c.keywords)
+        def go(e):
+          if want(e):
+            return e
+          kids = ordered(e)
+          if kids is None:
+            return None
+          for k in kids:
+            if simple(k):
+              continue
+            return go(k)      # the first non-simple operand: it runs before anything after it
+          return None
+        return go(root)
+
+    inl = cache[key] = _Inl(world, keep=names)
+  try:
+    return inl.fn(qualname)
+  except AnalysisError:
+    raise
+  except Exception:
+    return world.fn(qualname)
 
 
 def sites(world, fn, types=ast.Call):
@@ -870,3 +1080,37 @@ def every_iteration(res, loop_stmt, nid):
           (b, s) not in cfg.exc_edges and cfg.nodes[s].kind != "handler":
         return False                   # leaves the loop early
   return True
+
+
+def alias_group(res, name):
+  """Locals that denote the same object as `name`: names bound only to it, and the names it is
+  itself only bound to (x = y; both directions, transitively)."""
+  grp = set(aliases_of(res, name))
+  changed = True
+  while changed:
+    changed = False
+    for nm in list(grp):
+      if nm in res.params:
+        continue
+      vals = [res._plain_value(res.cfg.nodes[d], nm) for d in res.defs.get(nm, ())]
+      if vals and all(isinstance(v, ast.Name) for v in vals) and len({v.id for v in vals}) == 1:
+        y = vals[0].id
+        if y not in grp:
+          grp |= aliases_of(res, y)
+          changed = True
+  return grp
+
+
+def _replace_node(root, old, new):
+  """Replace sub-node `old` of statement `root` by `new` (identity match)."""
+  for parent in ast.walk(root):
+    for fld, val in ast.iter_fields(parent):
+      if val is old:
+        setattr(parent, fld, new)
+        return True
+      if isinstance(val, list):
+        for i, x in enumerate(val):
+          if x is old:
+            val[i] = new
+            return True
+  return False
